@@ -112,6 +112,7 @@ class Package:
         self.protocols = []   # (name, [(stepname, T, is_stream)])
         self.named = []       # usable named types: list of T (records, enums, aliases)
         self.generics = []    # (name, nparams, builder(args)->T)
+        self.structs = {}     # name -> ("record", [(field, T)]) | ("alias", T): for re-spelling (C13)
         self.counter = 0
 
     def fresh(self, prefix):
@@ -217,6 +218,7 @@ class Gen:
             fields.append((fname, ft))
             lines.append("    %s: %s" % (fname, yq(ft.spell)))
         pkg.defs.append((name, "\n".join(lines)))
+        pkg.structs[name] = ("record", fields)
         t = T("rec", name, name=name, fields=fields)
         pkg.named.append(t)
         return t
@@ -226,7 +228,8 @@ class Gen:
         name = pkg.fresh("A")
         target = self.g_type(self.max_depth - 1)
         pkg.defs.append((name, "%s: %s" % (name, yq(target.spell))))
-        t = T(target.kind, name, **{k: v for k, v in target.__dict__.items() if k not in ("kind", "spell")})
+        pkg.structs[name] = ("alias", target)
+        t = T(target.kind, name, **{k: v for k, v in target.__dict__.items() if k not in ("kind", "spell", "gname", "gargs")})
         pkg.named.append(t)
         return t
 
@@ -256,7 +259,7 @@ class Gen:
                 else:
                     fields.append((fname, self.wrap(args[p], wrap)))
             spell = "%s<%s>" % (name, ", ".join(a.spell for a in args))
-            return T("rec", spell, name=name, fields=fields)
+            return T("rec", spell, name=name, fields=fields, gname=name, gargs=list(args))
         arrp = {p for _, p, wrap in shapes if p is not None and wrap == "[]"}
         optp = {p for _, p, wrap in shapes if p is not None and wrap == "?"}
         pkg.generics.append((name, np_, build, arrp, optp))
@@ -277,6 +280,7 @@ class Gen:
             else:
                 t = self.wrap(a, wrapk)
             t.spell = "%s<%s>" % (name, a.spell)
+            t.gname, t.gargs = name, [a]
             return t
         pkg.generics.append((name, 1, build, {0} if wrapk == "[]" else set(), {0} if wrapk == "?" else set()))
 
@@ -285,6 +289,7 @@ class Gen:
         if a.spell.startswith("["):
             name = self.pkg.fresh("U")
             self.pkg.defs.append((name, "%s: %s" % (name, a.spell)))
+            self.pkg.structs[name] = ("alias", a)
             a = T(a.kind, name, **{k: v for k, v in a.__dict__.items() if k not in ("kind", "spell")})
         return a
 
@@ -380,7 +385,8 @@ class Gen:
                     # implicit tags must be plain identifiers: alias anything else
                     name = self.pkg.fresh("C")
                     self.pkg.defs.append((name, "%s: %s" % (name, yq(c.spell))))
-                    c = T(c.kind, name, **{k2: v2 for k2, v2 in c.__dict__.items() if k2 not in ("kind", "spell")})
+                    self.pkg.structs[name] = ("alias", c)
+                    c = T(c.kind, name, **{k2: v2 for k2, v2 in c.__dict__.items() if k2 not in ("kind", "spell", "gname", "gargs")})
                 cases.append(c)
                 if len(cases) == n:
                     break
@@ -724,3 +730,115 @@ def coq_read(step, w):
     if step[2]:
         return "RItems [%s]" % "; ".join(coq_val(x) for b in w for x in b)
     return "RVal (%s)" % coq_val(w)
+
+
+# ---------------------------------------------------------------------------------- alternative spellings (C13)
+import re as _re
+
+ALIAS_OF = {}
+for _a, _p in PRIM_ALIASES.items():
+    ALIAS_OF.setdefault(_p, []).append(_a)
+
+
+def expanded(t, rng=None, swap_aliases=False):
+    """the same type in expanded YAML (flow style): !vector / !array / !map / [null, T] / !generic"""
+    def prim_name(p, cur):
+        if swap_aliases:
+            if cur == p and p in ALIAS_OF:
+                return ALIAS_OF[p][0]
+            if cur != p:
+                return p
+        return cur
+    if hasattr(t, "gname"):
+        return "!generic {name: %s, args: [%s]}" % (t.gname, ", ".join(expanded(a, rng, swap_aliases) for a in t.gargs))
+    if _re.fullmatch(r"[A-Za-z][A-Za-z0-9]*", t.spell) and not (t.kind == "prim" and (t.spell in PRIMS or t.spell in PRIM_ALIASES)):
+        return t.spell
+    k = t.kind
+    if k == "prim":
+        return prim_name(t.p, t.spell)
+    if k == "opt":
+        return "[null, %s]" % expanded(t.e, rng, swap_aliases)
+    if k == "union":
+        return "[" + ", ".join((["null"] if t.has_null else []) + [expanded(c, rng, swap_aliases) for c in t.cases]) + "]"
+    if k == "vec":
+        return "!vector {items: %s}" % expanded(t.e, rng, swap_aliases)
+    if k == "fixvec":
+        return "!vector {items: %s, length: %d}" % (expanded(t.e, rng, swap_aliases), t.n)
+    if k == "map":
+        return "!map {keys: %s, values: %s}" % (expanded(t.k, rng, swap_aliases), expanded(t.e, rng, swap_aliases))
+    names = _re.findall(r"\b(d\d+)\b", t.spell.rsplit("[", 1)[-1]) if "[" in t.spell else []
+    if k == "dynarr":
+        return "!array {items: %s}" % expanded(t.e, rng, swap_aliases)
+    if k == "arr":
+        if names:
+            return "!array {items: %s, dimensions: [%s]}" % (expanded(t.e, rng, swap_aliases), ", ".join(names))
+        if t.spell.endswith("[x]"):
+            return "!array {items: %s, dimensions: [x]}" % expanded(t.e, rng, swap_aliases)
+        return "!array {items: %s, dimensions: %d}" % (expanded(t.e, rng, swap_aliases), t.rank)
+    if k == "fixarr":
+        if names:
+            return "!array {items: %s, dimensions: {%s}}" % (expanded(t.e, rng, swap_aliases),
+                                                             ", ".join("%s: %d" % nd for nd in zip(names, t.dims)))
+        return "!array {items: %s, dimensions: [%s]}" % (expanded(t.e, rng, swap_aliases), ", ".join(map(str, t.dims)))
+    raise ValueError(k)
+
+
+def respell(pkg, style, rng):
+    """YAML text(s) of the same package in another spelling. style: 'expanded' | 'aliases' | 'reorder' | 'split'.
+    Returns {filename: text}."""
+    defs = []
+    for name, text in pkg.defs:
+        st = pkg.structs.get(name)
+        if style in ("expanded", "aliases") and st:
+            sw = style == "aliases"
+            ex = (lambda t: expanded(t, rng, sw)) if style == "expanded" else (
+                lambda t: (expanded(t, rng, True) if (t.kind == "prim" and (t.spell in PRIMS or t.spell in PRIM_ALIASES)) else t.spell))
+            if st[0] == "record":
+                text = "%s: !record\n  fields:\n" % name + "\n".join("    %s: %s" % (fn, yq2(ex(ft))) for fn, ft in st[1])
+            else:
+                text = "%s: %s" % (name, yq2(ex(st[1])))
+        defs.append((name, text))
+    protos = []
+    for name, steps in pkg.protocols:
+        lines = ["%s: !protocol" % name, "  sequence:"]
+        for sname, t, is_stream in steps:
+            sp = expanded(t, rng, False) if style == "expanded" else (
+                (expanded(t, rng, True) if (t.kind == "prim" and (t.spell in PRIMS or t.spell in PRIM_ALIASES)) else t.spell)
+                if style == "aliases" else t.spell)
+            if is_stream:
+                if style == "expanded" and rng.random() < 0.5:
+                    lines.append("    %s: !stream {items: %s}" % (sname, yq2(sp)))
+                else:
+                    lines += ["    %s: !stream" % sname, "      items: %s" % yq2(sp)]
+            else:
+                lines.append("    %s: %s" % (sname, yq2(sp)))
+        protos.append((name, "\n".join(lines)))
+    allp = [t for _, t in defs] + [t for _, t in protos]
+    if style == "comments":
+        # non-documentation comments: blocks separated from the element (and from each other) by blank lines,
+        # plus extra whitespace
+        out = []
+        for t in allp:
+            r = rng.random()
+            if r < 0.4:
+                out.append("# ---- section banner ----\n\n# TODO: an unrelated note\n# spanning two lines\n\n" + t)
+            elif r < 0.7:
+                out.append("# a detached remark\n\n\n" + t)
+            else:
+                out.append(t)
+        return {"model.yml": "# file header\n\n" + "\n\n\n".join(out) + "\n\n# trailing remark\n"}
+    if style == "reorder":
+        rng.shuffle(allp)
+        allp = ["# reordered\n\n" + allp[0]] + allp[1:]
+    if style == "split":
+        rng.shuffle(allp)
+        k = max(1, len(allp) // 3)
+        return {"zz_last.yml": "\n\n".join(allp[:k]) + "\n", "a_first.yml": "\n\n".join(allp[k:2 * k]) + "\n# trailing comment\n",
+                "model.yml": "\n\n".join(allp[2 * k:]) + "\n"}
+    return {"model.yml": "\n\n".join(allp) + "\n"}
+
+
+def yq2(s):
+    if s.startswith("[") or s.startswith("{") or s.startswith("!"):
+        return s
+    return yq(s)
